@@ -141,6 +141,8 @@ C14_attrs(G) == \A m \in 1..Len(G.members) : \A n \in SeqSet(Fin(G, m).nodes) :
                   /\ n.barrier = RefBarrier(G.def, n.id)
                   /\ n.retry = RefRetry(G.def, n.id)
 C14_roots(G) == \A m \in 1..Len(G.members) : SeqSet(Fin(G, m).roots) = RefRoots(G.def)
+\* (the members are the graphs composed under permutations of the declaration order and, role "conducted", the
+\* graph a conductor holds after conducting a history: conducting leaves the composed graph alone)
 C14_order_independent(G) == \A a, b \in 1..Len(G.members) : Fin(G, a).digest = Fin(G, b).digest
 C14_roundtrip(G) == \A m \in 1..Len(G.members) :
                       /\ Fin(G, m).digest = Fin(G, m).digest_rt
